@@ -287,7 +287,7 @@ def read_fragment(kind, name):
     return open(p, encoding='utf-8').read()
 
 
-def build(unit_path, repo=None, extra_tail=''):
+def build(unit_path, repo=None, extra_tail='', twins_only=False):
     repo = repo or REPO
     u = vspec.parse(unit_path)
     ctx = Ctx(u)
@@ -412,10 +412,13 @@ def build(unit_path, repo=None, extra_tail=''):
             sig = name_return(sig, it.ret)
         fname = '%s::%s' % (norm_sp(header) if header else '', it.rename or item.name)
         req = [c for c in it.clauses if c.kind == 'requires']
-        ens = [c for c in it.clauses if c.kind == 'ensures']
+        ens = [c for c in it.clauses if c.kind == 'ensures' and not c.strict]
+        strict = [c for c in it.clauses if c.kind == 'ensures' and c.strict]
         dec = [c for c in it.clauses if c.kind == 'decreases']
         contract = clause_block('requires', req, '    ') + clause_block('ensures', ens, '    ') + clause_block('decreases', dec, '    ')
         included = getattr(it, 'included_from', None)
+        if twins_only and not included:
+            it.twin_host = True
         if included:
             # contract text comes from the home unit; it is assumed here and proved there
             for c in it.clauses:
@@ -428,38 +431,60 @@ def build(unit_path, repo=None, extra_tail=''):
                     c.label = None
             it.hints = [] if it.external_body else it.hints
         for c in it.clauses:
-            if c.label:
+            if c.label and not getattr(c, 'strict', False) and not twins_only:
                 if c.label in g.clauses:
                     raise Undecided('duplicate clause label %s' % c.label)
                 g.clauses[c.label] = {'tags': c.tags, 'kind': c.kind, 'expr': c.expr, 'fn': fname, 'unit': u.name}
         for n, cl in it.loops.items():
             for c in cl:
-                if c.label:
+                if c.label and not twins_only:
                     if c.label in g.clauses:
                         raise Undecided('duplicate clause label %s' % c.label)
                     g.clauses[c.label] = {'tags': c.tags, 'kind': 'loop-' + c.kind, 'expr': c.expr, 'fn': fname, 'unit': u.name}
         for n, d in it.closures.items():
             for c in d['clauses']:
-                if not c.label:
+                if not c.label or twins_only:
                     continue
                 if c.label in g.clauses:
                     raise Undecided('duplicate clause label %s' % c.label)
                 g.clauses[c.label] = {'tags': c.tags, 'kind': 'closure-' + c.kind, 'expr': c.expr, 'fn': fname, 'unit': u.name}
         for (label, tags, pos, prefix, text, lineno) in it.hints:
-            if label not in g.clauses and not included:
+            if label not in g.clauses and not included and not twins_only:
                 g.clauses[label] = {'tags': tags, 'kind': 'hint', 'expr': '(proof hint)', 'fn': fname, 'unit': u.name}
         pre = ''.join('    ' + a + '\n' for a in it.attrs)
-        if it.external_body and body is not None:
+        if (it.external_body or (twins_only and not included)) and body is not None:
             pre += '    #[verifier::external_body]\n'
         if body is None:
             chunk = '%s    %s\n%s    ;\n' % (pre, sig.strip(), contract)
         else:
-            body2 = body if (included and it.external_body) else splice_body(body, it, where)
+            body2 = body if ((included and it.external_body) or twins_only) else splice_body(body, it, where)
             chunk = '%s    %s // @@fn:%s\n%s    %s\n' % (pre, sig.strip(), fname, contract, body2)
         item_chunks.append('// ---- %s\n%s' % (where, chunk))
+        if strict and body is not None and not included and twins_only:
+            # one twin copy per clause taken verbatim from the property text that is known / expected to be refuted (findings);
+            # isolating them keeps the main proof small and gives each of them its own verdict
+            import copy
+            pre_t = ''.join('    ' + a + '\n' for a in it.attrs)
+            for sn, sc in enumerate(strict):
+                tname = (it.rename or item.name) + '__strict_%d' % sn
+                tsig = re.sub(r'\bfn\s+' + re.escape(it.rename or item.name) + r'\b', 'fn ' + tname, sig, count=1)
+                tfname = '%s::%s' % (norm_sp(header) if header else '', tname)
+                req2 = [vspec.Clause('requires', c.tags, None, c.expr, c.lineno) for c in req]
+                tcontract = clause_block('requires', req2, '    ') + clause_block('ensures', [sc], '    ')
+                if sc.label in g.clauses:
+                    raise Undecided('duplicate clause label %s' % sc.label)
+                g.clauses[sc.label] = {'tags': sc.tags, 'kind': 'ensures-strict', 'expr': sc.expr, 'fn': tfname, 'unit': u.name}
+                it3 = copy.copy(it)
+                it3.hints = []
+                it3.loops = {n: [vspec.Clause(c.kind, c.tags, None, c.expr, c.lineno) for c in cl] for n, cl in it.loops.items()}
+                it3.closures = {n: {'sig': d['sig'], 'clauses': [vspec.Clause(c.kind, c.tags, None, c.expr, c.lineno) for c in d['clauses']]} for n, d in it.closures.items()}
+                tbody = splice_body(body, it3, where) if (it.closures) else body
+                item_chunks.append('// ---- %s (strict twin %d)\n%s    %s // @@fn:%s\n%s    %s\n' % (where, sn, pre_t, tsig.strip(), tfname, tcontract, tbody))
+                g.functions.append({'name': tfname, 'kind': 'fn', 'source': it.source, 'path': it.path, 'line': 0, 'sha': sha(item.text),
+                                    'rules': fired, 'verbatim': False, 'props': [], 'external_body': False, 'has_body': False, 'included_from': None, 'twin': True})
         g.functions.append({'name': fname, 'kind': 'fn', 'source': it.source, 'path': it.path, 'line': sf.line_of(item), 'sha': sha(item.text),
                             'rules': fired, 'verbatim': not fired and not it.as_header and not it.path.startswith('lifted '), 'props': it.props,
-                            'external_body': it.external_body, 'has_body': body is not None, 'included_from': included})
+                            'external_body': it.external_body or twins_only, 'has_body': body is not None, 'included_from': included})
     close_impl()
     parts += item_chunks
     if extra_tail:
@@ -483,6 +508,7 @@ def build(unit_path, repo=None, extra_tail=''):
         g.line_fn[ln] = cur_fn
     g.trusted = scan_trusted(g.text)
     g.unit = u
+    g.has_strict = any((not isinstance(x, tuple)) and any(getattr(c, 'strict', False) for c in x.clauses) and not getattr(x, 'included_from', None) for x in u.items)
     return g
 
 
